@@ -2,6 +2,7 @@ package main
 
 import (
 	"encoding/json"
+	"unicode/utf8"
 	"fmt"
 	"reflect"
 	"runtime/debug"
@@ -145,7 +146,8 @@ var executors = map[string]func(h *caseHdr, ev M, line []byte) any{}
 // specification looks at it).
 func crashOut(ev map[string]any, kind, where, msg string, ms int) any {
 	return M{"kind": kind, "panic": true, "where": where, "msg": msg, "ms": ms,
-		"merr": "", "uerr": "", "bytes": []any{}, "back": []any{}, "backUTC": true, "laws": []any{}, "desc": M{"have": false}, "cross": M{"have": false}, "sane": true}
+		"merr": "", "uerr": "", "bytes": []any{}, "back": []any{}, "backUTC": true, "laws": []any{}, "desc": M{"have": false}, "cross": M{"have": false}, "sane": true,
+		"json": []any{}, "jsonable": M{"finite": true, "times": true, "utf8": true}}
 }
 
 // ptrFor returns the pointer a codec's writer methods expect for the value held in pv (a pointer
@@ -292,6 +294,113 @@ func hasRecursion(t *abs.TD) bool {
 	return false
 }
 
+// renderJSON walks data with the descriptor (three ways of obtaining it) and the JSON outputter.
+func renderJSON(p *plenc.Plenc, d *plenccodec.Descriptor, data []byte) []any {
+	res := []any{}
+	one := func(via string, get func() (*plenccodec.Descriptor, error)) {
+		r := M{"via": via, "panic": false, "where": "", "msg": "", "err": "", "valid": false, "perr": "", "tree": M{"k": "null"}}
+		panicked, where, msg := guard(func() {
+			dd, err := get()
+			if err != nil {
+				r["err"] = "descriptor round trip: " + errStr(err)
+				return
+			}
+			var jo plenccodec.JSONOutput
+			if err := dd.Read(&jo, data); err != nil {
+				r["err"] = errStr(err)
+				return
+			}
+			text := jo.Done()
+			r["valid"] = json.Valid(text)
+			t, err := jsonTree(text)
+			if err != nil {
+				r["perr"] = errStr(err)
+				return
+			}
+			r["tree"] = t
+		})
+		if panicked {
+			r["panic"], r["where"], r["msg"] = true, where, msg
+		}
+		res = append(res, r)
+	}
+	one("direct", func() (*plenccodec.Descriptor, error) { return d, nil })
+	one("plenc", func() (*plenccodec.Descriptor, error) {
+		b, err := p.Marshal(nil, d)
+		if err != nil {
+			return nil, err
+		}
+		var d2 plenccodec.Descriptor
+		return &d2, p.Unmarshal(b, &d2)
+	})
+	one("json", func() (*plenccodec.Descriptor, error) {
+		b, err := json.Marshal(d)
+		if err != nil {
+			return nil, err
+		}
+		var d2 plenccodec.Descriptor
+		return &d2, json.Unmarshal(b, &d2)
+	})
+	return res
+}
+
+// jsonable reports the preconditions of C13 on a value: floats finite, times in years 1..9999, strings and
+// byte slices valid UTF-8 (otherwise only validity of the document is required).
+func jsonable(v reflect.Value) M {
+	finite, timesOK, utf8OK := true, true, true
+	var walk func(v reflect.Value)
+	walk = func(v reflect.Value) {
+		switch v.Kind() {
+		case reflect.Float32, reflect.Float64:
+			f := v.Float()
+			if f != f || f > 1.7976931348623157e308 || f < -1.7976931348623157e308 {
+				finite = false
+			}
+		case reflect.String:
+			if !utf8.ValidString(v.String()) {
+				utf8OK = false
+			}
+		case reflect.Slice:
+			if v.Type().Elem().Kind() == reflect.Uint8 {
+				if !utf8.Valid(v.Bytes()) {
+					utf8OK = false
+				}
+				return
+			}
+			for i := 0; i < v.Len(); i++ {
+				walk(v.Index(i))
+			}
+		case reflect.Ptr:
+			if !v.IsNil() {
+				walk(v.Elem())
+			}
+		case reflect.Map:
+			it := v.MapRange()
+			for it.Next() {
+				k := reflect.New(v.Type().Key()).Elem()
+				k.Set(it.Key())
+				e := reflect.New(v.Type().Elem()).Elem()
+				e.Set(it.Value())
+				walk(k)
+				walk(e)
+			}
+		case reflect.Struct:
+			if v.Type() == reflect.TypeOf(time.Time{}) {
+				tm := v.Interface().(time.Time)
+				if y := tm.UTC().Year(); y < 1 || y > 9999 {
+					timesOK = false
+				}
+				return
+			}
+			for i := 0; i < v.NumField(); i++ {
+				walk(abs.Fld(v, i))
+			}
+		}
+	}
+	walk(v)
+	return M{"finite": finite, "times": timesOK, "utf8": utf8OK}
+}
+
 func isRepeatedCodec(c plenccodec.Codec) bool {
 	for {
 		switch x := c.(type) {
@@ -307,7 +416,8 @@ func isRepeatedCodec(c plenccodec.Codec) bool {
 
 func execCodec(h *caseHdr, ev M) any {
 	out := M{"kind": "ok", "panic": false, "where": "", "msg": "", "merr": "", "uerr": "", "bytes": []any{}, "back": []any{},
-		"backUTC": true, "laws": []any{}, "desc": M{"have": false}, "cross": M{"have": false}, "sane": true}
+		"backUTC": true, "laws": []any{}, "desc": M{"have": false}, "cross": M{"have": false}, "sane": true,
+		"json": []any{}, "jsonable": M{"finite": true, "times": true, "utf8": true}}
 	var gt reflect.Type
 	var in reflect.Value
 	p := instanceFor(h)
@@ -395,17 +505,24 @@ func execCodec(h *caseHdr, ev M) any {
 	out["laws"] = laws
 	// the descriptor of the type (C14, C09); recursive types are asked for theirs in the "desc" event only
 	out["desc"] = M{"have": false}
+	out["json"] = []any{}
 	if !hasRecursion(h.T) {
+		var d plenccodec.Descriptor
 		panicked, where, msg = guard(func() {
 			c, err := p.CodecForType(gt)
 			if err != nil {
 				return
 			}
-			d := c.Descriptor()
+			d = c.Descriptor()
 			out["desc"] = M{"have": true, "d": projDesc(&d, 12)}
 		})
 		if panicked {
 			out["desc"] = M{"have": false, "panic": true, "where": where, "msg": msg}
+		} else if out["desc"].(M)["have"].(bool) && out["merr"] == "" {
+			// C13: the marshalled bytes rendered as JSON through the descriptor: taken directly, after a plenc
+			// round trip and after an encoding/json round trip of the descriptor itself
+			out["json"] = renderJSON(p, &d, abs.ToBytes(out["bytes"]))
+			out["jsonable"] = jsonable(in.Elem())
 		}
 	}
 	return out
